@@ -26,6 +26,10 @@ type Entry struct {
 	// one line of 70,000 characters, or tens of thousands of short lines
 	BulkUnit string `json:"bulk_unit,omitempty"`
 	BulkN    int    `json:"bulk_n,omitempty"`
+	// CRLF (entries with a title only): the list line ends with \r\n instead of \n (a list edited on two
+	// systems). The tool splits at \n, so the CR stays at the end of the title: the heading may show it or not,
+	// but the entry is an entry of its own and so are the lines after it.
+	CRLF bool `json:"crlf,omitempty"`
 }
 
 // full returns the complete file content of the entry.
@@ -55,6 +59,9 @@ func (c Case) listText() string {
 		sb.WriteString(en.Name)
 		if en.HasTitle {
 			sb.WriteString(" " + en.Title)
+		}
+		if en.CRLF && en.HasTitle && (i < len(c.Entries)-1 || c.FinalNL) {
+			sb.WriteString("\r")
 		}
 		if i < len(c.Entries)-1 || c.FinalNL {
 			sb.WriteString("\n")
@@ -188,6 +195,9 @@ func consume(s string, c Case) error {
 			title = en.Title
 		}
 		line, ok := nextLine()
+		if en.CRLF && en.HasTitle {
+			line = strings.TrimSuffix(line, "\r")
+		}
 		if !ok || line != "### "+title {
 			return fail(i, "heading is %q, want %q", line, "### "+title)
 		}
@@ -288,6 +298,9 @@ func genCase(t *rapid.T) Case {
 			}
 			used[en.Name] = i
 		}
+		if en.HasTitle && rapid.IntRange(0, 9).Draw(t, "crlfLine") == 0 {
+			en.CRLF = true
+		}
 		c.Entries = append(c.Entries, en)
 	}
 	for i := 0; i <= n; i++ {
@@ -336,6 +349,12 @@ func classify(c Case) (bool, []string) {
 	}
 	if !c.FinalNL {
 		labels = append(labels, "no final newline")
+	}
+	for _, en := range c.Entries {
+		if en.CRLF {
+			labels = append(labels, "a list line ending in CR LF among LF lines")
+			break
+		}
 	}
 	for _, en := range c.Entries {
 		if en.BulkN > 0 {
